@@ -175,9 +175,46 @@ pub fn op_cmp(p: &Pointer, q: &Pointer) -> String {
         want_keys.dedup();
         law_maps.ck(keys == want_keys, "btreemap_order_is_not_string_order");
     }
+    // ---- aliasing: the comparisons must depend on the texts only, not on where the bytes live.
+    // Compare each operand's own PointerBuf with VIEWS INTO ITS OWN BUFFER (parent, split_at heads and
+    // tails, `get(..k)`, `get(k..)`) and with separately allocated copies of those views.
+    let mut law_alias = Law::new();
+    for buf in [&pb, &qb] {
+        let whole: &Pointer = buf;
+        let mut views: Vec<&Pointer> = Vec::new();
+        if let Some(par) = whole.parent() { views.push(par); }
+        let n = whole.count();
+        for k in super::util::sample_positions(n + 1, 8) {
+            if let Some(v) = whole.get(..k) { views.push(v); }
+            if let Some(v) = whole.get(k..) { views.push(v); }
+        }
+        views.push(whole);
+        for v in views {
+            let want_eq = buf.as_str() == v.as_str();
+            let want_ord = buf.as_str().cmp(v.as_str());
+            let copy: PointerBuf = PointerBuf::parse(v.as_str().to_string()).expect("valid");
+            let eqs = [
+                eqi!(PointerBuf, Pointer, buf, v), eqi!(Pointer, PointerBuf, v, buf),
+                eqi!(PointerBuf, &Pointer, buf, &v), eqi!(&Pointer, PointerBuf, &v, buf),
+                eqi!(Pointer, Pointer, whole, v), eqi!(&Pointer, &Pointer, &whole, &v),
+                eqi!(PointerBuf, PointerBuf, buf, &copy), eqi!(Pointer, str, v, buf.as_str()),
+                eqi!(PointerBuf, str, buf, v.as_str()), eqi!(str, Pointer, buf.as_str(), v),
+            ];
+            law_alias.ck(eqs.iter().all(|b| *b == want_eq), "eq_depends_on_aliasing");
+            let pcs = [
+                <PointerBuf as PartialOrd<Pointer>>::partial_cmp(buf, v),
+                <PointerBuf as PartialOrd<&Pointer>>::partial_cmp(buf, &v),
+                <Pointer as PartialOrd<Pointer>>::partial_cmp(whole, v),
+                <Pointer as PartialOrd<PointerBuf>>::partial_cmp(whole, &copy),
+                Some(<&Pointer as Ord>::cmp(&whole, &v)),
+            ];
+            law_alias.ck(pcs.iter().all(|x| *x == Some(want_ord)), "ord_depends_on_aliasing");
+        }
+    }
     o.law("law_ops", &law_ops);
     o.law("law_hash", &law_hash);
     o.law("law_maps", &law_maps);
+    o.law("law_alias", &law_alias);
     o.finish()
 }
 
